@@ -275,6 +275,10 @@ class MiniInterp:
     def call(self, fi: FuncInfo, args: list, kwargs: dict | None = None, self_obj=None):
         kwargs = kwargs or {}
         fi = self.prj.funcs.get(fi.qual, fi)      # the function as written (not the view with helpers inlined): every call is followed and seen by the hook
+        if not self.__dict__.get("_imported"):
+            self.import_time()
+        if fi.qual in self.__dict__.get("_wrapped_methods", ()):
+            raise Unknown(f"{fi.local} is wrapped by a project decorator")
         memo_key = None
         if any((attr_chain(d.func if isinstance(d, ast.Call) else d) or "").split(".")[-1] in ("lru_cache", "cache") for d in fi.node.decorator_list):
             typed = any(isinstance(d, ast.Call) and any(k.arg == "typed" and isinstance(k.value, ast.Constant) and k.value.value for k in d.keywords)
@@ -489,7 +493,7 @@ class MiniInterp:
                 self.block(st.finalbody, env, fi)
             return
         if isinstance(st, (ast.FunctionDef,)):
-            env[st.name] = Closure(st, env, fi)
+            env[st.name] = self.decorated(Closure(st, env, fi), st, env, fi)
             return
         if isinstance(st, ast.With):
             suppressed = []
@@ -955,6 +959,79 @@ class MiniInterp:
         if v is None or isinstance(v, (bool, int, float)):
             raise PyRaise("TypeError")               # not iterable
         raise Unknown(f"iteration over {type(v).__name__}")
+
+    LIBRARY_DECORATORS = {"staticmethod", "classmethod", "property", "abstractmethod", "cached_property", "lru_cache", "cache", "total_ordering",
+                          "dataclass", "override", "final", "overload", "setter", "deleter", "getter", "unique", "runtime_checkable"}
+
+    @classmethod
+    def project_decorators(cls, node) -> list:
+        """the decorators of a definition that are not the library's declarative ones (those are modelled where they matter)"""
+        out = []
+        for d in getattr(node, "decorator_list", []):
+            nm = (attr_chain(d.func if isinstance(d, ast.Call) else d) or "?").split(".")[-1]
+            if nm not in cls.LIBRARY_DECORATORS:
+                out.append(d)
+        return out
+
+    def decorated(self, value, node, env, fi):
+        """`@d1 @d2 def f` binds d1(d2(f)): the decorators are evaluated and applied, innermost first"""
+        for d in reversed(self.project_decorators(node)):
+            nm = (attr_chain(d.func if isinstance(d, ast.Call) else d) or "?").split(".")[-1]
+            if nm == "wraps":
+                continue                      # functools.wraps(f): copies names, returns the function
+            if nm in ("contextmanager", "singledispatch", "singledispatchmethod"):
+                raise Unknown(f"decorator {nm}")
+            dec = self.ev(d, env, fi)
+            value = self.apply2(dec, [value], {})
+        return value
+
+    def import_time(self):
+        """what importing the package executes besides definitions: decorators of module-level functions and classes and of
+        methods (registries filled by decorators).  Run once per interpreter, before the first call."""
+        if self.__dict__.get("_imported"):
+            return
+        self._imported = True
+        todo = self.prj.__dict__.get("_decorated_defs")
+        if todo is None:
+            todo = []
+            for m in self.prj.modules.values():
+                for name, f in m.functions.items():
+                    if self.project_decorators(f.node):
+                        todo.append(("func", m, name, f))
+                for ci in m.classes.values():
+                    for name, f in ci.methods.items():
+                        if self.project_decorators(f.node):
+                            todo.append(("method", m, name, f))
+                    if self.project_decorators(ci.node):
+                        todo.append(("class", m, ci.name, ci))
+            self.prj.__dict__["_decorated_defs"] = todo
+        cache = self.__dict__.setdefault("_globals", {})
+        for kind, m, name, obj in todo:
+            try:
+                self._import_one(kind, m, name, obj, cache)
+            except (Unknown, PyRaise):
+                # a decorator that is not modelled (a command-line framework ...): what it makes of the definition is not known
+                if kind != "class":
+                    self.__dict__.setdefault("_wrapped_methods", set()).add(obj.qual)
+
+    def _import_one(self, kind, m, name, obj, cache):
+        if True:
+            if kind == "func":
+                anchor = self.prj.func(obj.qual, raw=True)
+                cache[(m.name, name)] = self.decorated(BoundFunc(anchor), obj.node, {}, anchor)
+            elif kind == "method":
+                anchor = self.prj.func(obj.qual, raw=True)
+                r = self.decorated(BoundFunc(anchor, None), obj.node, self.class_namespace(obj.cls, obj.node), anchor)
+                if not (isinstance(r, BoundFunc) and r.fi.qual == anchor.qual):
+                    self.__dict__.setdefault("_wrapped_methods", set()).add(anchor.qual)
+            else:
+                anchor = next(iter(obj.methods.values()), None) or self.module_anchor(m, None)
+                if anchor is None:
+                    raise Unknown(f"decorated class {name} in a module without functions")
+                anchor = self.prj.func(anchor.qual, raw=True)
+                r = self.decorated(T("class", obj), obj.node, {}, anchor)
+                if not (isinstance(r, T) and r and r[0] == "class" and r[1] is obj):
+                    raise Unknown(f"class {name} replaced by its decorator")
 
     OPNAMES = {ast.Add: "add", ast.Sub: "sub", ast.Mult: "mul", ast.FloorDiv: "floordiv", ast.Mod: "mod", ast.Div: "truediv", ast.BitOr: "or",
                ast.BitAnd: "and", ast.BitXor: "xor", ast.LShift: "lshift", ast.RShift: "rshift", ast.MatMult: "matmul", ast.Pow: "pow"}
@@ -1610,14 +1687,16 @@ class MiniInterp:
                 cache[key] = self.ev(m.assigns[name], {}, fi)
             return cache[key]
         if name in m.functions:
-            return BoundFunc(m.functions[name])
+            dv = self.__dict__.get("_globals", {}).get((m.name, name))
+            return dv if dv is not None else BoundFunc(m.functions[name])
         if name in m.classes:
             return T("class", m.classes[name])
         if name in m.imports:
             tgt = self.prj._resolve_import(m.imports[name])
             from .core import ClassInfo, Module
             if isinstance(tgt, FuncInfo):
-                return BoundFunc(tgt)
+                dv = self.__dict__.get("_globals", {}).get((tgt.module.name, tgt.name)) if tgt.cls is None and tgt.outer is None else None
+                return dv if dv is not None else BoundFunc(tgt)
             if isinstance(tgt, ClassInfo):
                 return T("class", tgt)
             if isinstance(tgt, Module):
@@ -2422,6 +2501,13 @@ class MiniInterp:
                         if (name == "min" and self.compare(ast.Lt(), kx[0], best[0])) or (name == "max" and self.compare(ast.Gt(), kx[0], best[0])):
                             best = kx
                     return best[1]
+                if name == "sum" and a2 and isinstance(a2[0], (list, tuple)) and \
+                        any(isinstance(x, Sym) and x.cls is not None and not isinstance(x, Lin) for x in list(a2[0]) + a2[1:]):
+                    # objects with their own + (or reflected +): the fold Python performs, start + x0 + x1 ...
+                    acc = a2[1] if len(a2) > 1 else kwargs.get("start", 0)
+                    for x in a2[0]:
+                        acc = self.binop(ast.Add(), acc, x, node)
+                    return acc
                 if name == "sum" and a2 and isinstance(a2[0], (list, tuple)) and any(isinstance(x, (Sym, Lin)) for x in list(a2[0]) + a2[1:]):
                     acc = Lin.of(a2[1] if len(a2) > 1 else kwargs.get("start", 0))
                     for x in a2[0]:
